@@ -6,9 +6,9 @@ from sa.terms import mk, ZERO, ONE, TRUE, FALSE, show, walk, map_term, num
 from sa.cfg import CFG
 from .common import engine, inventory, StateView, locate, prove, analysis_or_fail, pretty
 
-LEVEL = 'proof'
+LEVEL = 'other'
 MANIFEST = {
-    'category': 'proof',
+    'category': 'other',
     'engine': 'svn',
     'technique': ('symbolic value numbering over rustc MIR: getter guards by gate/condition matching, setter arm tables by '
                   'substitution of the Option/side-effect cases and identity proofs on the post-state, Err-exit store reachability on '
